@@ -149,6 +149,14 @@ int main(void) {
                 }
             } else printf("%s\n", why());
             guard_free(gs); guard_free(gd);
+        } else if (!strcmp(op, "comma")) {
+            /* comma <int>: the result block is an exact-size guard block */
+            int number = (int)atol(a[0]);
+            if (QV_TRY(5)) {
+                gm_start(); char *r = qstr_comma_number(number); gm_stop(); QV_END;
+                if (r == NULL) printf("NULL\n"); else { puthex(stdout, r, strlen(r)); printf("\n"); free(r); }
+            } else { gm_stop(); printf("%s\n", why()); }
+            gm_cleanup();
         } else printf("?? %s", line);
 
     }
